@@ -39,7 +39,8 @@ def cases(tier, seed):
         cs.append({'kind': 'seq', 'targets': [a, b], 'threads': 1, 'fmt': 'json' if i % 4 == 0 else 'text'})
     trip = list(itertools.permutations([a for a in A if a != 'ssh1'], 3))
     for i, t in enumerate(trip if tier == 'thorough' else rng.sample(trip, 10)):
-        for order in (list(itertools.permutations(range(3))) if tier == 'thorough' and i % 10 == 0 else [(0, 2, 1), (1, 2, 0)]):
+        # with two worker threads the third target only starts once one of the first two has finished, so a feasible gate order opens target 0 or 1 first
+        for order in ([o for o in itertools.permutations(range(3)) if o[0] in (0, 1)] if tier == 'thorough' and i % 10 == 0 else [(0, 2, 1), (1, 2, 0)]):
             cs.append({'kind': 'gated', 'targets': list(t), 'threads': 2, 'fmt': 'text' if i % 3 else 'json', 'gate_order': list(order)})
     if tier == 'thorough':
         for i, t in enumerate(trip):
